@@ -120,7 +120,7 @@ func checkC17(w *Worker) {
 			sink := x.Choose(2, "fault:sink")
 			cmd := c17Cmds[ci]
 			cname := strings.Join(cmd, " ")
-			writeFiles(inputs[1])
+			writeFiles(inputs[1])()
 			probe := w.runBin(appCase{Args: append([]string{"--no-color"}, cmd...), Files: inputs[1]}, "")
 			if len(probe.Stdout) == 0 {
 				x.Case("skip: the command writes nothing to stdout here", false)
